@@ -6,7 +6,7 @@ from ..absstore import Abs
 from ..gen import ev_tok, fl_tok, AUTHORS, ID
 from ..conc import forced
 
-THEOREMS = ['committed_is_serial', 'mutual_exclusion', 'reader_sees_whole_state', 'store_ok_live', 'one_winner']
+THEOREMS = ['committed_is_serial', 'mutual_exclusion', 'reader_sees_whole_state', 'store_ok_live', 'one_winner', 'ids_fresh_snapshots_witness']
 
 INSIDE_TXN = {'store:txn', 'store:checked', 'store:preremoved', 'es_store:start', 'es_store:padded', 'es_store:half_copied',
               'es_store:appended', 'store:appended', 'store:indexed', 'store:before_commit', 'remove:txn', 'remove:before_commit',
